@@ -117,6 +117,74 @@ fn assemble_in(ctx: PreprocessorContext, src: &str) -> Result<Assembled, AsmErr>
     }
 }
 
+/// One assembler context and output used for several texts in a row, the way the library's own tests use them:
+/// what a refused text leaves behind must not change how later texts are treated.
+pub struct Session {
+    ctx: PreprocessorContext,
+    out: PreprocessorOutput,
+}
+impl Session {
+    pub fn new() -> Session {
+        Session { ctx: PreprocessorContext::default(), out: PreprocessorOutput::default() }
+    }
+    /// parse one more text on the same context / output
+    pub fn parse(&mut self, src: &str) -> Result<(), AsmErr> {
+        let (ctx, out) = (&mut self.ctx, &mut self.out);
+        let res = catch_unwind(AssertUnwindSafe(|| {
+            PP.with(|pp| match pp.parse(ctx, out, src) {
+                Ok(_) => Ok(()),
+                Err(e) => {
+                    let pos = match &e {
+                        lalrpop_util::ParseError::UnrecognizedToken { token: (s, _, _), .. } => Some(*s),
+                        lalrpop_util::ParseError::InvalidToken { location } => Some(*location),
+                        lalrpop_util::ParseError::UnrecognizedEOF { location, .. } => Some(*location),
+                        lalrpop_util::ParseError::ExtraToken { token: (s, _, _) } => Some(*s),
+                        _ => None,
+                    };
+                    Err((pos, format!("{}", e)))
+                }
+            })
+        }));
+        match res {
+            Err(_) => Err(AsmErr::Panic(last_panic())),
+            Ok(Err((p, m))) => Err(AsmErr::Diag(p, m)),
+            Ok(Ok(())) => Ok(()),
+        }
+    }
+    /// the library's documented reset between programs (the output is replaced by a new one)
+    pub fn clear(&mut self) {
+        self.ctx.clear();
+        self.out = PreprocessorOutput::default();
+    }
+    pub fn code(&self) -> &Vec<String> {
+        &self.out.code
+    }
+    pub fn data(&self) -> &Vec<String> {
+        &self.out.data
+    }
+    /// everything a program's meaning depends on, as it stands after the texts parsed so far (ends the session:
+    /// the library hands the source map out by value)
+    pub fn finish(self) -> Assembled {
+        let mut labels = HashMap::new();
+        let mut label_src_pos = HashMap::new();
+        for (k, l) in self.ctx.label_map.iter() {
+            labels.insert(k.clone(), (matches!(l.get_type(), LabelType::DATA), l.map as usize));
+            label_src_pos.insert(k.clone(), l.source_position as usize);
+        }
+        let mut undefined: Vec<(usize, String)> = self.ctx.undefined_labels.iter().map(|(p, l)| (crate::util::AsIndex::ix(p), l.clone())).collect();
+        undefined.sort();
+        Assembled {
+            data: self.out.data.clone(),
+            code: self.out.code.clone(),
+            labels,
+            label_src_pos,
+            fn_map: self.ctx.fn_map.iter().map(|(k, v)| (k.clone(), *v as usize)).collect(),
+            undefined,
+            source_map: self.ctx.mapper.get_source_map().into_iter().map(|(k, v)| (crate::util::AsIndex::ix(k), crate::util::AsIndex::ix(v))).collect(),
+        }
+    }
+}
+
 #[derive(Debug, Clone, PartialEq, Eq)]
 pub enum Refusal {
     UndefinedLabel(String),
